@@ -107,3 +107,59 @@ class Reach:
                     if isinstance(n, ast.Call) and call_name(n) in names:
                         return call_name(n)
         return None
+
+
+def with_helpers(repo, fi, depth: int = 2, same_module: bool = True) -> list:
+    """`fi` followed by the private helpers it hands its own first parameter to (`_helper(self, ...)` / `self._helper(...)`), resolved by a
+    unique name, `depth` levels: a rule about what a function does must survive the extraction of a part of it into a worker."""
+    from .model import walk_no_nested, call_name
+    out, seen = [fi], {fi.key}
+    frontier = [fi]
+    for _ in range(depth):
+        nxt = []
+        for f in frontier:
+            if isinstance(f.node, ast.Lambda):
+                continue
+            a = f.node.args.posonlyargs + f.node.args.args
+            if not a:
+                continue
+            p0 = a[0].arg
+            for c in walk_no_nested(f.node):
+                if not isinstance(c, ast.Call):
+                    continue
+                nm = call_name(c)
+                if not nm or not nm.startswith('_') or nm.startswith('__'):
+                    continue
+                recv = c.func.value if isinstance(c.func, ast.Attribute) else (c.args[0] if c.args else None)
+                if not (isinstance(recv, ast.Name) and recv.id == p0):
+                    continue
+                cands = [g for g in repo.all_funcs() if g.name == nm and not isinstance(g.node, ast.Lambda) and
+                         (not same_module or g.module == f.module) and '<locals>' not in g.qualname]
+                keys = {g.qualname for g in cands}
+                if len(keys) != 1:
+                    continue
+                for g in cands:
+                    if g.key not in seen:
+                        seen.add(g.key)
+                        out.append(g)
+                        nxt.append(g)
+        frontier = nxt
+    return out
+
+
+def called_helpers(repo, fi, depth: int = 1) -> list:
+    """`fi` followed by the private same-module functions it calls by bare name (any arguments), `depth` levels."""
+    from .model import walk_no_nested
+    out, seen, frontier = [fi], {fi.key}, [fi]
+    for _ in range(depth):
+        nxt = []
+        for f in frontier:
+            for c in walk_no_nested(f.node):
+                if isinstance(c, ast.Call) and isinstance(c.func, ast.Name) and c.func.id.startswith('_') and not c.func.id.startswith('__'):
+                    for g in repo.find_funcs(f.module, c.func.id):
+                        if g.key not in seen and not isinstance(g.node, ast.Lambda):
+                            seen.add(g.key)
+                            out.append(g)
+                            nxt.append(g)
+        frontier = nxt
+    return out
